@@ -363,4 +363,13 @@ def check(repo, rep, tier):
   rule_core(repo, rep)
   rule_frame(repo, rep)
   rule_unlabelled(repo, rep)
+  # "with the same hyper-parameters": fitting the supervised variant leaves
+  # the hyper-parameter objects it shares with the base learner untouched
+  from . import c17 as _c17
+  before = len(rep.obs)
+  _c17.rule_writes(repo, rep)
+  sup = tuple(p[0] + '.fit' for p in PAIRS)
+  rep.obs[before:] = [o for o in rep.obs[before:]
+                      if o['construct'].startswith(sup)]
+  rep.floors = [fl for fl in rep.floors if 'in-place' not in fl[0]]
   c18.rule_ctor(repo, rep, only=[p[0] for p in PAIRS])
